@@ -22,16 +22,19 @@ Lemma zget_empty {A} k : zget (@zempty A) k = None.
 Proof. unfold zget, zempty. apply PositiveMap.gempty. Qed.
 
 (* ------------------------------------------------------------------ the queue contract *)
-(* `content q` is the multiset of pending (payload, key) entries, as a list up to permutation:
+(* `content q` is the multiset of pending (payload, key) entries, as a list up to permutation; `qinv` is the
+   representation invariant of the queue (True for a plain list, heap order for heapq), kept by push and pop:
    push adds one entry; pop answers None exactly on the empty queue, and otherwise hands out an entry of
    minimum key and removes exactly that entry. *)
 Record pq_contract (Q : Type) (qempty : Q) (qpush : Q -> Z -> Z -> Q) (qpop : Q -> option (Z * Z * Q))
-       (content : Q -> list (Z * Z)) : Prop := {
+       (content : Q -> list (Z * Z)) (qinv : Q -> Prop) : Prop := {
+  pq_empty_inv : qinv qempty;
   pq_empty : content qempty = [];
-  pq_push : forall q x k, Permutation (content (qpush q x k)) ((x, k) :: content q);
-  pq_pop_none : forall q, qpop q = None -> content q = [];
-  pq_pop_some : forall q x k q', qpop q = Some (x, k, q') ->
-      Permutation (content q) ((x, k) :: content q') /\ (forall y k', In (y, k') (content q) -> k <= k')
+  pq_push_inv : forall q x k, qinv q -> qinv (qpush q x k);
+  pq_push : forall q x k, qinv q -> Permutation (content (qpush q x k)) ((x, k) :: content q);
+  pq_pop_none : forall q, qinv q -> qpop q = None -> content q = [];
+  pq_pop_some : forall q x k q', qinv q -> qpop q = Some (x, k, q') ->
+      qinv q' /\ Permutation (content q) ((x, k) :: content q') /\ (forall y k', In (y, k') (content q) -> k <= k')
 }.
 
 (* ------------------------------------------------------------------ paths as vertex lists *)
@@ -102,7 +105,8 @@ Section Correct.
   Variable qpush : Q -> Z -> Z -> Q.
   Variable qpop : Q -> option (Z * Z * Q).
   Variable content : Q -> list (Z * Z).
-  Hypothesis PQ : pq_contract Q qempty qpush qpop content.
+  Variable qinv : Q -> Prop.
+  Hypothesis PQ : pq_contract Q qempty qpush qpop content qinv.
 
   Variable nbrs : Z -> list Z.
   Variable w : Z -> Z -> Z.
@@ -118,15 +122,15 @@ Section Correct.
   Local Notation dget s x := (zget (dist s) x).
   Local Notation T := (fun _ _ : Z => True).
 
-  Lemma push_in q a b x k : In (x, k) (content (qpush q a b)) <-> (x, k) = (a, b) \/ In (x, k) (content q).
+  Lemma push_in q a b x k : qinv q -> (In (x, k) (content (qpush q a b)) <-> (x, k) = (a, b) \/ In (x, k) (content q)).
   Proof.
-    pose proof (pq_push _ _ _ _ _ PQ q a b) as P. split; intros H.
+    intros Hq. pose proof (pq_push _ _ _ _ _ _ PQ q a b Hq) as P. split; intros H.
     - apply (Permutation_in _ P) in H. destruct H as [H|H]; [left; congruence | right; exact H].
     - apply (Permutation_in _ (Permutation_sym P)). destruct H as [H|H]; [left; congruence | right; exact H].
   Qed.
 
-  Lemma push_len q a b : length (content (qpush q a b)) = S (length (content q)).
-  Proof. rewrite (Permutation_length (pq_push _ _ _ _ _ PQ q a b)). reflexivity. Qed.
+  Lemma push_len q a b : qinv q -> length (content (qpush q a b)) = S (length (content q)).
+  Proof. intros Hq. rewrite (Permutation_length (pq_push _ _ _ _ _ _ PQ q a b Hq)). reflexivity. Qed.
 
   (* "there is a walk from start to y of total weight c" *)
   Inductive walkc : Z -> Z -> Prop :=
@@ -174,7 +178,8 @@ Section Correct.
     i_qge : forall x k, In (x, k) (content (que s)) -> exists d, dget s x = Some d /\ d <= k;
     i_pred : forall x d, dget s x = Some d -> x <> start ->
         exists u du, zget (pred s) x = Some u /\ dget s u = Some du /\ d = du + w u x /\ In x (nbrs u)
-                     /\ In u ord /\ (In x ord -> before ord u x)
+                     /\ In u ord /\ (In x ord -> before ord u x);
+    i_qinv : qinv (que s)
   }.
 
   Lemma inv_weaken (E E' : Z -> Z -> Prop) s ord :
@@ -192,6 +197,7 @@ Section Correct.
       (length (content (que s')) <= S (length (content (que s))))%nat.
   Proof.
     intros I Hv Hnv.
+    assert (Hq : qinv (que s)) by apply (i_qinv _ _ _ I).
     assert (Vv : In v verts) by (eapply walkc_verts, (i_real _ _ _ I); eauto).
     assert (Hw : 0 <= w v nv) by (apply w_nonneg; auto).
     assert (Wd : walkc nv (dv + w v nv)) by (apply wc_snoc; [eapply (i_real _ _ _ I); eauto | auto]).
@@ -244,10 +250,10 @@ Section Correct.
                 ** rewrite Hv in Hdu. inversion Hdu; subst. unfold d. lia.
              ++ rewrite Oth by exact Ne. destruct HE as [HE|[_ ->]]; [|congruence].
                 apply (i_edge _ _ _ I u x Hu Hx HE du Hdu).
-          -- intros x dx Hx Hn. apply push_in. destruct (Z.eq_dec x nv) as [->|Ne].
+          -- intros x dx Hx Hn. apply (push_in _ _ _ _ _ Hq). destruct (Z.eq_dec x nv) as [->|Ne].
              ++ rewrite zget_set_same in Hx. inversion Hx; subst. left. reflexivity.
              ++ rewrite Oth in Hx by exact Ne. right. apply (i_qhas _ _ _ I); assumption.
-          -- intros x k Hin. apply push_in in Hin. destruct Hin as [Heq|Hin].
+          -- intros x k Hin. apply (push_in _ _ _ _ _ Hq) in Hin. destruct Hin as [Heq|Hin].
              ++ inversion Heq; subst. rewrite zget_set_same. exists d. split; [reflexivity|lia].
              ++ destruct (i_qge _ _ _ I x k Hin) as [dx [Hdx Hle]].
                 destruct (Z.eq_dec x nv) as [->|Ne].
@@ -261,23 +267,25 @@ Section Correct.
                 destruct (i_pred _ _ _ I x dx Hx Hns) as [u [du [P1 [P2 [P3 [P4 [P5 P6]]]]]]].
                 exists u, du. rewrite zget_set_other by congruence. rewrite Oth by (apply OrdNe; exact P5).
                 repeat split; auto.
+          -- apply (pq_push_inv _ _ _ _ _ _ PQ). exact Hq.
         * rewrite Oth by congruence. exact Hv.
-        * rewrite push_len. lia.
+        * cbn [que]. rewrite (push_len _ _ _ Hq). lia.
       + (* no improvement: push (nv, distance[nv]) again *)
         destruct (dget s nv) as [dn|] eqn:Hdn; [|simpl in Himp; discriminate].
         simpl in Himp.
         assert (Hle : dn <= dv + w v nv).
         { destruct (Z_lt_le_dec (dv + w v nv) dn) as [L|L]; [|exact L]. apply gt_spec in L. congruence. }
-        rewrite NVis. rewrite Hdn.
+        cbv iota. rewrite NVis. try rewrite Hdn.
         eexists. split; [reflexivity|]. split; [|split].
         * destruct I. constructor; cbn [dist pred vis que]; auto.
           -- intros u x Hu Hx [HE|[-> ->]]; [eauto|].
-             intros du Hdu. rewrite Hv in Hdu. inversion Hdu; subst. exists dn. split; [exact Hdn | lia].
-          -- intros x dx Hx Hn. apply push_in. right. auto.
-          -- intros x k Hin. apply push_in in Hin. destruct Hin as [Heq|Hin]; [|auto].
-             inversion Heq; subst. exists k. split; [exact Hdn | lia].
+             intros du Hdu. cbn [dist] in Hdu. rewrite Hv in Hdu. inversion Hdu; subst. exists dn. split; [exact Hdn | lia].
+          -- intros x dx Hx Hn. apply (push_in _ _ _ _ _ Hq). right. auto.
+          -- intros x k Hin. apply (push_in _ _ _ _ _ Hq) in Hin. destruct Hin as [Heq|Hin]; [|auto].
+             inversion Heq; subst. exists dn. split; [exact Hdn | lia].
+          -- apply (pq_push_inv _ _ _ _ _ _ PQ). exact Hq.
         * exact Hv.
-        * cbn [que]. rewrite push_len. lia.
+        * cbn [que]. rewrite (push_len _ _ _ Hq). lia.
   Qed.
 
   Lemma relax_all_inv : forall l (E : Z -> Z -> Prop) s v ord0 dv,
@@ -301,7 +309,7 @@ Section Correct.
     inv T s ord -> qpop (que s) = Some (v, k, q') -> In v ord ->
     inv T (mkst (dist s) (pred s) (vis s) q') ord.
   Proof.
-    intros I Hp Hin. destruct (pq_pop_some _ _ _ _ _ PQ _ _ _ _ Hp) as [P _].
+    intros I Hp Hin. destruct (pq_pop_some _ _ _ _ _ _ PQ _ _ _ _ (i_qinv _ _ _ I) Hp) as [Hq' [P _]].
     destruct I. constructor; cbn [dist pred vis que]; auto.
     - intros x d Hx Hn. specialize (i_qhas0 x d Hx Hn). apply (Permutation_in _ P) in i_qhas0.
       destruct i_qhas0 as [Heq|H]; [|exact H]. inversion Heq; subst. contradiction.
@@ -338,7 +346,7 @@ Section Correct.
     exists dv, dget s v = Some dv /\
       inv (fun u _ => u <> v) (mkst (dist s) (pred s) (zset (vis s) v tt) q') (v :: ord).
   Proof.
-    intros I Hp Hn. destruct (pq_pop_some _ _ _ _ _ PQ _ _ _ _ Hp) as [P Hmin].
+    intros I Hp Hn. destruct (pq_pop_some _ _ _ _ _ _ PQ _ _ _ _ (i_qinv _ _ _ I) Hp) as [Hq' [P Hmin]].
     assert (Hvk : In (v, k) (content (que s))) by (apply (Permutation_in _ (Permutation_sym P)); left; reflexivity).
     destruct (i_qge _ _ _ I v k Hvk) as [dv [Hdv Hle]].
     pose proof (Hmin v dv (i_qhas _ _ _ I v dv Hdv Hn)) as Hge.
@@ -364,6 +372,7 @@ Section Correct.
       intros [<-|Hin].
       + exists [], ord. split; [reflexivity | exact P5].
       + destruct (P6 Hin) as [l1 [l2 [E1 E2]]]. exists (v :: l1), l2. split; [rewrite E1; reflexivity | exact E2].
+    - exact Hq'.
   Qed.
 
   (* ---------------------------------------------------------------- fuel *)
@@ -376,31 +385,37 @@ Section Correct.
     - intros H. exists x. split; [exact H | apply Z.eqb_refl].
   Qed.
 
+  Lemma rem_cons ord a L : rem ord (a :: L) = if mem a ord then rem ord L else a :: rem ord L.
+  Proof. unfold rem. simpl. destruct (mem a ord); reflexivity. Qed.
+
+  Lemma mem_cons x v ord : mem x (v :: ord) = (x =? v) || mem x ord.
+  Proof. reflexivity. Qed.
+
   Lemma rem_cons_notin v ord L : ~ In v L -> rem (v :: ord) L = rem ord L.
   Proof.
-    induction L as [|a L IH]; [reflexivity|]. intros Hn. unfold rem in *. simpl.
-    assert (a <> v) by (intros ->; apply Hn; left; reflexivity).
-    destruct (Z.eqb_spec a v); [contradiction|]. simpl.
+    induction L as [|a L IH]; [reflexivity|]. intros Hn.
+    assert (Ne : a <> v) by (intros ->; apply Hn; left; reflexivity).
+    rewrite !rem_cons, mem_cons. apply Z.eqb_neq in Ne. rewrite Ne. simpl.
     rewrite IH by (intros C; apply Hn; right; exact C). reflexivity.
   Qed.
 
   Lemma deg_rem v ord L : NoDup L -> In v L -> ~ In v ord ->
     deg_sum nbrs (rem ord L) = (length (nbrs v) + deg_sum nbrs (rem (v :: ord) L))%nat.
   Proof.
-    induction L as [|a L IH]; [intros _ []|]. intros Hnd Hin Hno. inversion Hnd; subst.
+    induction L as [|a L IH]; [intros _ []|]. intros Hnd Hin Hno.
+    inversion Hnd as [|? ? Hni Hnd']; subst.
+    rewrite !rem_cons, mem_cons.
     destruct Hin as [->|Hin].
-    - rewrite (rem_cons_notin v ord L H1) in *.
-      unfold rem at 1 2. simpl. rewrite Z.eqb_refl. simpl.
-      destruct (mem v ord) eqn:M; [apply mem_In in M; contradiction|]. simpl.
-      fold (rem ord L). rewrite (rem_cons_notin v ord L H1). reflexivity.
-    - assert (a <> v) by (intros ->; contradiction).
-      unfold rem at 1 2. simpl. destruct (Z.eqb_spec a v); [contradiction|]. simpl.
-      fold (rem ord L). fold (rem (v :: ord) L).
-      destruct (mem a ord); simpl; rewrite (IH H2 Hin Hno); lia.
+    - rewrite Z.eqb_refl. simpl orb. cbv iota.
+      destruct (mem v ord) eqn:M; [apply mem_In in M; contradiction|].
+      rewrite (rem_cons_notin v ord L Hni). reflexivity.
+    - assert (Ne : a <> v) by (intros ->; contradiction).
+      apply Z.eqb_neq in Ne. rewrite Ne. simpl orb.
+      destruct (mem a ord); simpl deg_sum; rewrite (IH Hnd' Hin Hno); lia.
   Qed.
 
   Lemma rem_nil L : rem [] L = L.
-  Proof. unfold rem. induction L as [|a L IH]; [reflexivity|]. simpl. rewrite IH. reflexivity. Qed.
+  Proof. induction L as [|a L IH]; [reflexivity|]. rewrite rem_cons. simpl. rewrite IH. reflexivity. Qed.
 
   Lemma loop_ok : forall fuel s ord,
     inv T s ord ->
@@ -409,7 +424,7 @@ Section Correct.
   Proof.
     induction fuel as [|f IH]; intros s ord I Hm; [lia|].
     simpl. destruct (qpop (que s)) as [[[v k] q']|] eqn:Hp.
-    - destruct (pq_pop_some _ _ _ _ _ PQ _ _ _ _ Hp) as [P _].
+    - destruct (pq_pop_some _ _ _ _ _ _ PQ _ _ _ _ (i_qinv _ _ _ I) Hp) as [_ [P _]].
       pose proof (Permutation_length P) as PL. simpl in PL.
       assert (Veq : visited Q (mkst (dist s) (pred s) (vis s) q') v = visited Q s v) by reflexivity.
       rewrite Veq.
@@ -425,14 +440,14 @@ Section Correct.
         * eapply inv_weaken; [|exact I2]. intros u x Hu Hx _.
           destruct (Z.eq_dec u v) as [->|Ne]; [right; auto | left; exact Ne].
         * cbn [que] in L2. rewrite (deg_rem v ord verts verts_nodup Vv Hn) in Hm. lia.
-    - exists s, ord. split; [reflexivity|]. split; [exact I|]. apply (pq_pop_none _ _ _ _ _ PQ). exact Hp.
+    - exists s, ord. split; [reflexivity|]. split; [exact I|]. apply (pq_pop_none _ _ _ _ _ _ PQ); [apply (i_qinv _ _ _ I) | exact Hp].
   Qed.
 
   Lemma init_inv : inv T (init Q qpush qempty start) [].
   Proof.
     unfold init.
     assert (C : forall x k, In (x, k) (content (qpush qempty start 0)) <-> (x, k) = (start, 0)).
-    { intros x k. rewrite push_in. rewrite (pq_empty _ _ _ _ _ PQ). simpl. tauto. }
+    { intros x k. rewrite (push_in _ _ _ _ _ (pq_empty_inv _ _ _ _ _ _ PQ)). rewrite (pq_empty _ _ _ _ _ _ PQ). simpl. tauto. }
     assert (D : forall x d, zget (zset (@zempty Z) start 0) x = Some d -> x = start /\ d = 0).
     { intros x d H. destruct (Z.eq_dec start x) as [->|Ne].
       - rewrite zget_set_same in H. inversion H. auto.
@@ -448,6 +463,7 @@ Section Correct.
     - intros x d H _. apply D in H. destruct H as [-> ->]. apply C. reflexivity.
     - intros x k H. apply C in H. inversion H; subst. exists 0. split; [apply zget_set_same | lia].
     - intros x d H Hn. apply D in H. destruct H as [-> _]. congruence.
+    - apply (pq_push_inv _ _ _ _ _ _ PQ). apply (pq_empty_inv _ _ _ _ _ _ PQ).
   Qed.
 
   (* ---------------------------------------------------------------- the state Dijkstra ends in *)
@@ -458,7 +474,7 @@ Section Correct.
   Proof.
     unfold dijkstra, fuel_of.
     destruct (loop_ok (S (S (deg_sum nbrs verts))) _ [] init_inv) as [s [ord [H1 [H2 H3]]]].
-    - unfold init. cbn [que]. rewrite push_len, (pq_empty _ _ _ _ _ PQ), rem_nil. simpl. lia.
+    - unfold init. cbn [que]. rewrite (push_len _ _ _ (pq_empty_inv _ _ _ _ _ _ PQ)), (pq_empty _ _ _ _ _ _ PQ), rem_nil. simpl. lia.
     - exists s, ord. split; [exact H1 | split; assumption].
   Qed.
 
